@@ -1,11 +1,11 @@
 //@@ include contracts/inc_shard_header.rs
 //@@ include contracts/inc_value_units.rs
 verus! {
-spec fn set_at(s: DatabaseShard, key: Vec<u8>) -> Option<Set<Vec<u8>>> {
-    if s.data@.contains_key(key) { match s.data@[key].value { Value::Set(m) => Some(m@), _ => None } } else { None }
+spec fn set_at(s: SV, key: Vec<u8>) -> Option<Set<Vec<u8>>> {
+    if s.data.contains_key(key) { match s.data[key].value { Value::Set(m) => Some(m@), _ => None } } else { None }
 }
-spec fn holds_non_set(s: DatabaseShard, key: Vec<u8>) -> bool {
-    s.data@.contains_key(key) && !(s.data@[key].value is Set)
+spec fn holds_non_set(s: SV, key: Vec<u8>) -> bool {
+    s.data.contains_key(key) && !(s.data[key].value is Set)
 }
 /// the set of the first n members of a sequence
 spec fn seq_set(e: Seq<Vec<u8>>, n: int) -> Set<Vec<u8>> { e.subrange(0, n).to_set() }
@@ -57,16 +57,16 @@ impl StorageEngine {
     fn sadd(&self, shard_guard: &mut DatabaseShard, key: Key, members: Vec<Vec<u8>>) -> (r: Result<usize>)
         requires members@.len() > 0,
         ensures
-            step_ok(*old(shard_guard), *final(shard_guard), key),
-            coll_ok(*old(shard_guard)) ==> coll_ok(*final(shard_guard)),
-            holds_non_set(*old(shard_guard), key) ==> r is Err && unchanged(*old(shard_guard), *final(shard_guard)),
+            step_ok(eff(*old(shard_guard), key), sv(*final(shard_guard)), key),
+            coll_ok(eff(*old(shard_guard), key)) ==> coll_ok(sv(*final(shard_guard))),
+            holds_non_set(eff(*old(shard_guard), key), key) ==> r is Err && unchanged(eff(*old(shard_guard), key), sv(*final(shard_guard))),
             // existing set: union with the arguments; reply = number of members that were new
-            set_at(*old(shard_guard), key) matches Some(m) ==> set_at(*final(shard_guard), key) == Some(m.union(seq_set(members@, members@.len() as int)))
+            set_at(eff(*old(shard_guard), key), key) matches Some(m) ==> set_at(sv(*final(shard_guard)), key) == Some(m.union(seq_set(members@, members@.len() as int)))
                 && r == Ok::<usize, FerrousError>((m.union(seq_set(members@, members@.len() as int)).len() - m.len()) as usize)
-                && final(shard_guard).data@[key].metadata == old(shard_guard).data@[key].metadata,
-            !old(shard_guard).data@.contains_key(key) ==> set_at(*final(shard_guard), key) == Some(seq_set(members@, members@.len() as int))
+                && sv(*final(shard_guard)).data[key].metadata == eff(*old(shard_guard), key).data[key].metadata,
+            !eff(*old(shard_guard), key).data.contains_key(key) ==> set_at(sv(*final(shard_guard)), key) == Some(seq_set(members@, members@.len() as int))
                 && r == Ok::<usize, FerrousError>(seq_set(members@, members@.len() as int).len() as usize)
-                && final(shard_guard).data@[key].metadata.expires_at is None,
+                && sv(*final(shard_guard)).data[key].metadata.expires_at is None,
 //@@ body
 //@@ end
 
@@ -75,10 +75,10 @@ impl StorageEngine {
 //@@   rewrite R2
     fn scard(&self, shard_guard: &mut DatabaseShard, key: &[u8]) -> (r: Result<usize>)
         ensures
-            unchanged(*old(shard_guard), *final(shard_guard)),
-            holds_non_set(*old(shard_guard), key_of(key@)) ==> r is Err,
-            !old(shard_guard).data@.contains_key(key_of(key@)) ==> r == Ok::<usize, FerrousError>(0),
-            set_at(*old(shard_guard), key_of(key@)) matches Some(m) ==> r == Ok::<usize, FerrousError>(m.len() as usize),
+            unchanged(eff(*old(shard_guard), key_of(key@)), sv(*final(shard_guard))),
+            holds_non_set(eff(*old(shard_guard), key_of(key@)), key_of(key@)) ==> r is Err,
+            !eff(*old(shard_guard), key_of(key@)).data.contains_key(key_of(key@)) ==> r == Ok::<usize, FerrousError>(0),
+            set_at(eff(*old(shard_guard), key_of(key@)), key_of(key@)) matches Some(m) ==> r == Ok::<usize, FerrousError>(m.len() as usize),
 //@@ body
 //@@ end
 
@@ -87,10 +87,10 @@ impl StorageEngine {
 //@@   rewrite R2
     fn sismember(&self, shard_guard: &mut DatabaseShard, key: &[u8], member: &[u8]) -> (r: Result<bool>)
         ensures
-            unchanged(*old(shard_guard), *final(shard_guard)),
-            holds_non_set(*old(shard_guard), key_of(key@)) ==> r is Err,
-            !old(shard_guard).data@.contains_key(key_of(key@)) ==> r == Ok::<bool, FerrousError>(false),
-            set_at(*old(shard_guard), key_of(key@)) matches Some(m) ==> r == Ok::<bool, FerrousError>(m.contains(key_of(member@))),
+            unchanged(eff(*old(shard_guard), key_of(key@)), sv(*final(shard_guard))),
+            holds_non_set(eff(*old(shard_guard), key_of(key@)), key_of(key@)) ==> r is Err,
+            !eff(*old(shard_guard), key_of(key@)).data.contains_key(key_of(key@)) ==> r == Ok::<bool, FerrousError>(false),
+            set_at(eff(*old(shard_guard), key_of(key@)), key_of(key@)) matches Some(m) ==> r == Ok::<bool, FerrousError>(m.contains(key_of(member@))),
 //@@ body
 //@@ end
 }
